@@ -79,3 +79,67 @@ def compile_sets(sets, log=lambda *a: None):
     if p.returncode == 0 and any(errs):
         raise build.BuildError('inconsistent cargo result for the probe crate')
     return [(e is None, e) for e in errs]
+
+
+def run_sets(sets, spellings, log=lambda *a: None):
+    """for declaration sets that compile: build ONE binary with a module per set and send every reference spelling of every declaration
+    through Interface::run; returns failures [{set, decl, spelling, hits, errors}] where not exactly the declared handler was invoked once.
+    spellings[i][k] = list of header texts (with '?' for queries) of declaration k of set i"""
+    if not sets:
+        return []
+    d = os.path.join(build.WORK, 'crun')
+    os.makedirs(os.path.join(d, 'src'), exist_ok=True)
+    lines = ['#![allow(dead_code, unused)]', 'use std::future::Future;', 'use std::task::{Context, Poll, Waker};', 'use microscpi::Interface;',
+             'fn block_on<F: Future>(fut: F) -> F::Output { let mut fut = std::pin::pin!(fut); let mut cx = Context::from_waker(Waker::noop()); let mut n = 0u32;',
+             '    loop { if let Poll::Ready(v) = fut.as_mut().poll(&mut cx) { return v; } n += 1; if n > 100000 { panic!("HANG"); } } }']
+    for i, st in enumerate(sets):
+        decls, attrs = st['decls'], st.get('attrs', [])
+        lines.append(f'pub mod m{i} {{')
+        lines.append('use microscpi::{self, Error, ErrorCommands, ErrorQueue, StandardCommands, StaticErrorQueue};')
+        lines.append('pub struct D { pub errors: StaticErrorQueue<4>, pub hits: [u32; 8], pub nerr: u32 }')
+        lines.append('impl D { pub fn new() -> Self { D { errors: StaticErrorQueue::new(), hits: [0; 8], nerr: 0 } } }')
+        if 'ErrorCommands' in attrs:
+            lines.append('impl ErrorCommands for D { fn error_queue(&mut self) -> &mut impl ErrorQueue { self.nerr += 1; &mut self.errors } }')
+        else:
+            lines.append('impl microscpi::ErrorHandler for D { fn handle_error(&mut self, _error: Error) { self.nerr += 1; } }')
+        if 'StandardCommands' in attrs:
+            lines.append('impl StandardCommands for D {}')
+        lines.append(f'#[microscpi::interface({", ".join(attrs)})]' if attrs else '#[microscpi::interface]')
+        lines.append('impl D {')
+        for k, dc in enumerate(decls):
+            lines.append(f'    #[scpi(cmd = "{dc}")]')
+            lines.append(f'    pub async fn h{k}(&mut self) -> Result<(), Error> {{ self.hits[{k}] += 1; Ok(()) }}')
+        lines.append('}')
+        lines.append('}')
+    lines.append('fn main() {')
+    lines.append('    let mut out: heapless::Vec<u8, 64> = heapless::Vec::new();')
+    for i, st in enumerate(sets):
+        for k, sps in enumerate(spellings[i]):
+            for sp in sps:
+                lit = json.dumps(sp + '\n')
+                lines.append(f'    {{ let mut d = m{i}::D::new(); out.clear(); let rem = block_on(d.run({lit}.as_bytes(), &mut out)).len();')
+                lines.append(f'      let ok = d.hits.iter().sum::<u32>() == 1 && d.hits[{k}] == 1 && d.nerr == 0 && rem == 0;')
+                lines.append(f'      if !ok {{ println!("{{{{\\"set\\": {i}, \\"decl\\": {k}, \\"spelling\\": {{:?}}, \\"hits\\": {{:?}}, \\"errors\\": {{}}, \\"rem\\": {{}}}}}}", {json.dumps(sp)}, d.hits, d.nerr, rem); }} }}')
+    lines.append('    println!("DONE");')
+    lines.append('}')
+    with open(os.path.join(d, 'Cargo.toml'), 'w') as f:
+        f.write('[package]\nname = "crun"\nversion = "0.0.0"\nedition = "2021"\n\n[[bin]]\nname = "crun"\npath = "src/main.rs"\n\n[dependencies]\n'
+                f'microscpi = {{ path = "{os.path.join(build.REPO, "microscpi")}" }}\nheapless = "0.8.0"\n\n[profile.dev]\ndebug = false\n\n[workspace]\n')
+    lock = os.path.join(build.WORK, 'vdev', 'Cargo.lock')
+    if not os.path.exists(lock):
+        lock = os.path.join(build.REPO, 'Cargo.lock')
+    if os.path.exists(lock):
+        shutil.copy(lock, os.path.join(d, 'Cargo.lock'))
+    with open(os.path.join(d, 'src', 'main.rs'), 'w') as f:
+        f.write('\n'.join(lines) + '\n')
+    env = dict(build.ENV)
+    env['CARGO_TARGET_DIR'] = os.path.join(build.WORK, 'tgt-cdev')
+    p = subprocess.run(['cargo', 'run', '--offline', '-q', '--bin', 'crun'], cwd=d, env=env, stdout=subprocess.PIPE, stderr=subprocess.PIPE, text=True)
+    if p.returncode != 0 or 'DONE' not in p.stdout:
+        errs = [l for l in p.stderr.splitlines() if l.startswith('error')][:3]
+        raise build.BuildError('the run-time probe crate failed to build or run: ' + ('; '.join(errs) or p.stderr[-800:]))
+    out = []
+    for line in p.stdout.splitlines():
+        if line.startswith('{'):
+            out.append(json.loads(line))
+    return out
